@@ -605,6 +605,53 @@ func cmdRun(args []string) int {
 		sampleOut = append(sampleOut, map[string]any{"note": "no sample witness produced"})
 	}
 
+	// cross-solver (thorough): a sample of the jobs is explored again with z3 5.1 and cvc5; path counts and
+	// violation counts must agree with the z3 4.8 run
+	crossJobs, crossAgree := 0, true
+	if *tier == "thorough" && *only == "" {
+		perJobRes := map[string][2]int{}
+		for _, r := range all {
+			k := r.Job.String()
+			v := perJobRes[k]
+			perJobRes[k] = [2]int{v[0] + r.Paths, v[1] + len(r.Violations)}
+		}
+		var sample []*Job
+		seenJ := map[string]bool{}
+		for k, j := range jobs {
+			if k%5 != 0 || seenJ[j.String()] {
+				continue
+			}
+			if pr := perJobRes[j.String()]; pr[0] == 0 || pr[0] > 15000 {
+				continue
+			}
+			seenJ[j.String()] = true
+			sample = append(sample, j)
+			if len(sample) >= 24 {
+				break
+			}
+		}
+		for _, kind := range []string{"z3-new", "cvc5"} {
+			in, err := NewInterp(p, kind, timeoutMs)
+			if err != nil {
+				inconcl = append(inconcl, "cross-solver "+kind+": "+err.Error())
+				crossAgree = false
+				continue
+			}
+			in.useDomains = false // every feasibility query goes to the solver under test
+			for _, j := range sample {
+				setup, run := findHarness(p, j.Harness)
+				res := in.Explore(j, setup, run, lim, nil, nil, isKnown)
+				want := perJobRes[j.String()]
+				crossJobs++
+				if res.Paths != want[0] || len(res.Violations) != want[1] || len(res.Inconcl) > 0 {
+					crossAgree = false
+					inconcl = append(inconcl, fmt.Sprintf("cross-solver %s disagrees on %s: paths %d vs %d, violations %d vs %d, inconclusive %d", kind, j, res.Paths, want[0], len(res.Violations), want[1], len(res.Inconcl)))
+				}
+			}
+			queries += in.solver.Queries
+			in.solver.Close()
+		}
+	}
 	if unknowns > 0 {
 		inconcl = append(inconcl, fmt.Sprintf("%d solver unknown/error answers", unknowns))
 	}
@@ -664,6 +711,8 @@ func cmdRun(args []string) int {
 			"new_violations":                len(report),
 			"job_paths":                     jobList,
 			"load_ssa_s":                    round2(loadS),
+			"cross_solver_jobs":             crossJobs,
+			"cross_solver_agree":            crossAgree,
 		},
 		Assumptions: append([]string{
 			"bounded: only the route sets, lengths and parameters listed under coverage.bounds are covered",
